@@ -24,6 +24,7 @@ func eqInts(a, b []int) bool {
 type c11id struct {
 	toks []int
 	at   []time.Time
+	ex   []time.Duration // Expiration in force when the event was accepted (a group's expiry uses its first event's)
 	cuts map[int]bool // index c: tokens before c may legitimately have been discarded
 }
 
@@ -55,7 +56,7 @@ func (s *c11id) block(L []int) (int, bool) {
 	return 0, false
 }
 
-func (s *c11id) close() { s.toks, s.at, s.cuts = nil, nil, map[int]bool{} }
+func (s *c11id) close() { s.toks, s.at, s.ex, s.cuts = nil, nil, nil, map[int]bool{} }
 
 // CheckC11 returns "" when the observations satisfy property C11.
 func CheckC11(o *Obs) (string, C11Summary) {
@@ -161,7 +162,7 @@ func CheckC11(o *Obs) (string, C11Summary) {
 						}
 					}
 					for _, c := range starts {
-						if !oo.T.Before(s.at[c].Add(o.Exp)) {
+						if !oo.T.Before(s.at[c].Add(s.ex[c])) {
 							s.cuts[len(s.toks)] = true
 							sum.Discards++
 							break
@@ -217,7 +218,7 @@ func CheckC11(o *Obs) (string, C11Summary) {
 						}
 					} else {
 						// the incoming event joined a group that expires at this very call (left open by the statement)
-						if len(prev) == 0 || oo.T.Before(s.at[start].Add(o.Exp)) {
+						if len(prev) == 0 || oo.T.Before(s.at[start].Add(s.ex[start])) {
 							return fmt.Sprintf("op %d: non-flush event %d composed immediately (%v) although its group has not expired", i, oo.Tok, c.Toks), sum
 						}
 						sum.Expiries++
@@ -239,7 +240,7 @@ func CheckC11(o *Obs) (string, C11Summary) {
 				if !ok {
 					return fmt.Sprintf("op %d: composed run %v is not a whole open group of %q (open=%v)", i, c.Toks, id, s.toks), sum
 				}
-				if oo.T.Before(s.at[start].Add(o.Exp)) {
+				if oo.T.Before(s.at[start].Add(s.ex[start])) {
 					return fmt.Sprintf("op %d: group %v of %q emitted before its expiry", i, c.Toks, id), sum
 				}
 				sum.Expiries++
@@ -285,6 +286,7 @@ func CheckC11(o *Obs) (string, C11Summary) {
 			s := get(x)
 			s.toks = append(s.toks, oo.Tok)
 			s.at = append(s.at, oo.T)
+			s.ex = append(s.ex, oo.Exp)
 			if n := countOpen(); n > sum.MaxOpen {
 				sum.MaxOpen = n
 			}
@@ -517,7 +519,7 @@ func CheckC17(o *Obs) (string, C17Summary) {
 			if gi := find(oo.Op.ID); gi >= 0 {
 				groups[gi].toks = append(groups[gi].toks, oo.Tok)
 			} else {
-				groups = append(groups, &c17group{id: oo.Op.ID, toks: []int{oo.Tok}, exp: oo.T.Add(o.Exp)})
+				groups = append(groups, &c17group{id: oo.Op.ID, toks: []int{oo.Tok}, exp: oo.T.Add(oo.Exp)})
 			}
 			if len(groups) > sum.MaxOpen {
 				sum.MaxOpen = len(groups)
